@@ -113,3 +113,255 @@ def _strong_pause_join(model, v):
     if not (v.get('signature') or '').endswith(':task-twice'):
         return True, 'n/a'
     return kit.run_strong_test('test_c10_pause_cmd_join.py', timeout=60)
+
+
+# ---------------------------------------------------------------------------
+# C10.T  pause / resume inside a tree of executions
+# ---------------------------------------------------------------------------
+TREE_ITEMS = """
+version: '2.0'
+parent:
+  tasks:
+    p1:
+      with-items: i in [0, 1]
+      workflow: child
+      on-success: p2
+    p2:
+      action: std.noop
+child:
+  tasks:
+    c1:
+      action: std.noop
+      on-success: c2
+    c2:
+      action: std.noop
+"""
+
+TREE_TWO = """
+version: '2.0'
+parent:
+  tasks:
+    pa:
+      workflow: child
+      on-success: pj
+    pb:
+      workflow: child
+      on-success: pj
+    pj:
+      join: all
+      action: std.noop
+child:
+  tasks:
+    c1:
+      action: std.noop
+      on-success: c2
+    c2:
+      action: std.noop
+"""
+
+
+def _c10_tree_case(shape, text, n_ops, max_step, preemptions, root_ops):
+    """Operator commands (pause / resume, each addressed to the root or to
+    one of the two sub-workflows) at solver-chosen points.
+
+    Oracle.  An execution the operator paused and that nobody (neither a
+    command addressed to it nor one addressed to an ancestor) resumed is
+    still PAUSED when everything in flight has been delivered, and so is
+    every ancestor of it; no task is created in a PAUSED execution
+    (Explorer invariant); after resuming what is still paused the tree
+    finishes exactly like an unpaused run."""
+    def case():
+        from vt.world import World
+        from vt.explorer import Explorer
+        from mistral_lib import actions as ml
+        sig = 'C10.T:%s' % shape
+        w = World([text])
+        with w:
+            ex = Explorer(w, sig, preemptions=preemptions)
+            ex.result_for = lambda ev: ml.Result(data='ok')
+            wid = w.start('parent')
+            ex.check_invariants()
+            held = set()          # executions the operator wants paused
+
+            def kids():
+                out = {}
+                for x in w.rows('WorkflowExecution'):
+                    pt = x['task_execution_id']
+                    if not pt:
+                        continue
+                    t = [t_ for t_ in w.rows('TaskExecution')
+                         if t_['id'] == pt][0]
+                    key = (t['name'], (x['runtime_context'] or {})
+                           .get('index', 0))
+                    out[key] = x['id']
+                return [out[k] for k in sorted(out)]
+
+            def mk_op(i):
+                # (a resume as the first command finds nothing paused)
+                what = choice('op%d' % i, ['pause', 'resume']) if i else \
+                    'pause'
+                tgt = choice('target%d' % i, (['root'] if root_ops else [])
+                             + ['kid0', 'kid1'])
+
+                def op(ex_, w_):
+                    ks = kids()
+                    if tgt == 'root':
+                        xid = wid
+                    else:
+                        n = int(tgt[-1])
+                        if len(ks) <= n:
+                            return
+                        xid = ks[n]
+                    row = w_.wf_ex(xid)
+                    if what == 'pause':
+                        if row['state'] == 'PAUSED':
+                            # already paused through a cascade: the request
+                            # is acknowledged all the same - from now on
+                            # only a resume addressed to this execution (or
+                            # an ancestor) may release it
+                            ex_.operator('pause_workflow', xid)
+                            held.add(xid)
+                            reach('paused-twice')
+                            return
+                        if row['state'] != 'RUNNING':
+                            return
+                        r, errs = ex_.operator('pause_workflow', xid)
+                        if w_.wf_ex(xid)['state'] == 'PAUSED':
+                            held.add(xid)
+                            reach('paused-' + ('root' if xid == wid
+                                               else 'kid'))
+                    else:
+                        if row['state'] != 'PAUSED':
+                            return
+                        ex_.operator('resume_workflow', xid)
+                        reach('resumed-' + ('root' if xid == wid
+                                            else 'kid'))
+                        held.discard(xid)
+                        if xid == wid:
+                            # a resume of the root releases the whole tree
+                            held.clear()
+                return op
+            real_deliver = ex.deliver
+
+            def deliver(ev, *a, **k):
+                real_deliver(ev, *a, **k)
+                # an execution the operator holds paused leaves PAUSED only
+                # through a resume addressed to it or to an ancestor
+                for xid in sorted(held):
+                    row = w.wf_ex(xid)
+                    check(row['state'] == 'PAUSED',
+                          'paused-execution-resumed-by-nobody',
+                          {'signature': sig + ':released',
+                           'wf': row['workflow_name'], 'state': row['state'],
+                           'trace': ex.trace[-25:]})
+            ex.deliver = deliver
+            ops = []
+            last = 1
+            for i in range(n_ops):
+                # (positions in non-decreasing order: commands issued at the
+                # same point run in the order listed)
+                at = choice('at%d' % i, list(range(last, max_step + 1)))
+                last = at
+                ops.append([at, mk_op(i)])
+            scenario.run_with_ops(ex, w, ops)
+            reach('at-rest')
+            info = {'trace': ex.trace[-40:],
+                    'states': [(x['workflow_name'], x['state'])
+                               for x in w.rows('WorkflowExecution')]}
+            for xid in sorted(held):
+                row = w.wf_ex(xid)
+                if row['state'] in ('SUCCESS', 'ERROR', 'CANCELLED'):
+                    continue
+                reach('held-at-rest')
+                check(row['state'] == 'PAUSED',
+                      'paused-execution-resumed-by-nobody',
+                      dict(info, signature=sig + ':released',
+                           wf=row['workflow_name']))
+                if xid != wid:
+                    check(w.wf_ex(wid)['state'] == 'PAUSED',
+                          'parent-runs-while-a-child-is-paused',
+                          dict(info, signature=sig + ':parent-running'))
+            # release everything that is still paused, top down
+            held.clear()
+            for _ in range(4):
+                paused = [x for x in w.rows('WorkflowExecution')
+                          if x['state'] == 'PAUSED']
+                if not paused:
+                    break
+                roots = [x for x in paused if not x['task_execution_id']]
+                tgt_ = (roots or paused)[0]
+                ex.operator('resume_workflow', tgt_['id'])
+                scenario.run_with_ops(ex, w, [])
+            reach('finished')
+            rows = w.rows('WorkflowExecution')
+            info = {'trace': ex.trace[-40:],
+                    'states': [(x['workflow_name'], x['state'])
+                               for x in rows]}
+            check(len(rows) == 3 and all(x['state'] == 'SUCCESS'
+                                         for x in rows),
+                  'tree-does-not-finish-like-an-unpaused-run',
+                  dict(info, signature=sig + ':final'))
+            names = sorted(t['name'] for t in w.rows('TaskExecution'))
+            want = sorted(['c1', 'c2'] * 2 + (
+                ['p1', 'p2'] if shape == 'items' else ['pa', 'pb', 'pj']))
+            check(names == want, 'tasks-differ-from-an-unpaused-run',
+                  dict(info, signature=sig + ':tasks', got=names))
+    return case
+
+
+@obligation(
+    'C10.T', engine='symx+world(minidb)',
+    functions=['mistral.engine.workflow_handler:pause_workflow',
+               'mistral.engine.workflow_handler:resume_workflow',
+               'mistral.engine.task_handler:_on_action_update',
+               'mistral.engine.task_handler:schedule_on_action_update',
+               'mistral.engine.tasks:Task.update',
+               'mistral.engine.tasks:RegularTask.on_action_update',
+               'mistral.engine.tasks:WithItemsTask.on_action_update',
+               'mistral.engine.actions:WorkflowAction.update',
+               'mistral.engine.workflows:Workflow.pause',
+               'mistral.engine.workflows:Workflow.resume'],
+    bounds={'quick': 'a parent with a with-items task over two '
+                     'sub-workflows, and a parent with two sub-workflow '
+                     'tasks feeding a join; 3 operator commands (pause / '
+                     'resume, each addressed to one of the two '
+                     'sub-workflows; 2 commands when the root may be '
+                     'addressed too) at solver-chosen positions among the '
+                     'first 7 deliveries (the first command is a pause); all '
+                     'actions succeed; FIFO',
+            'thorough': 'positions among the first 12 deliveries, <= 1 '
+                        'out-of-order delivery'},
+    stubs=['minidb', 'QueueRPC', 'FakeScheduler', 'FakeExecutor',
+           'post-commit queue inline'],
+    outside='deeper trees; failing actions; a root-level pause combined with '
+            'a resume addressed to a child (the engine resumes the parent '
+            'then; the property does not say what should happen)',
+    timeout=(500, 2400))
+def c10_t(ctx):
+    """a sub-workflow the operator paused stays PAUSED - and keeps its
+    parent PAUSED - until a resume is addressed to it or to an ancestor; no
+    task appears in a PAUSED execution; after the release the tree finishes
+    like an unpaused run"""
+    boot()
+    ms = ctx.pick(7, 12)
+    k = ctx.pick(0, 1)
+    for shape, text in (('items', TREE_ITEMS), ('two', TREE_TWO)):
+        yield Case('%s/kids' % shape,
+                   _c10_tree_case(shape, text, 3, ms, k, False),
+                   needed=['at-rest', 'held-at-rest', 'paused-kid',
+                           'resumed-kid', 'finished'],
+                   shard_depth=7, procs=14, max_paths=2000000,
+                   replay=_strong_tree if shape == 'items' else None)
+        yield Case('%s/root' % shape,
+                   _c10_tree_case(shape, text, 2, ms, k, True),
+                   needed=['at-rest', 'paused-root', 'finished'],
+                   shard_depth=6, procs=14, max_paths=2000000)
+
+
+def _strong_tree(model, v):
+    """F29 through the real engine (real scheduler threads, sqlite)"""
+    from vt import kit
+    if not (v.get('signature') or '').endswith((':tasks', ':final')):
+        return True, 'n/a'
+    return kit.run_strong_test('test_c10_withitems_subwf_resume.py',
+                               timeout=120)
